@@ -237,7 +237,7 @@ func segsLine(db *pogreb.DB, read func(name string) []byte) string {
 			}
 			return 0
 		}
-		fmt.Fprintf(&sb, "%d:%d:%d:%d:%d:%d:%d", s.ID, s.SequenceID, s.Size, n, crc, b(s.Full), b(s.Current))
+		fmt.Fprintf(&sb, "%d:%d:%d:%d:%d:%d:%d:%d", s.ID, s.SequenceID, s.Size, n, crc, b(s.Full), b(s.Current), s.DeleteRecords)
 	}
 	if sb.Len() == 0 {
 		return "-"
